@@ -313,6 +313,47 @@ def trace_linkage(ctx, runs, max_n=12, only=None, big_every=0):
     return rejected
 
 
+def trace_jax(ctx, runs, big_every=0, only_run=None):
+    """impl -> spec for C09: random JAX file sets outside the image of the specification's writer are loaded by the crate (both loaders);
+    TLC accepts each recorded load only if Describes(files) - the declarative reader of spec/HpoJax.tla - equals the facts the crate loaded"""
+    from concurrent.futures import ThreadPoolExecutor
+    chunks = 1 if (runs <= 12 or only_run is not None) else min(12, runs // 12)
+    tf = os.path.join(ctx.scratch, "jax-trace")
+    try:
+        s = hv(ctx, "record-jax", prop="C09", trace=tf, runs=runs, chunks=chunks, big_every=big_every, only_run=only_run)
+    except ToolError as e:
+        os.makedirs(REPLAYS, exist_ok=True)
+        rp = os.path.join(REPLAYS, f"C09-jax-recorder-died-seed{ctx.seed}.json")
+        json.dump({"cmd": "trace-jax", "property": "C09", "seed": ctx.seed, "runs": runs, "big_every": big_every, "run": None,
+                   "diffs": ["the process that loads random file sets with the crate died: " + str(e)[-400:]]}, open(rp, "w"), indent=1)
+        ctx.violations.append(dict(property="C09", what="the recorder process died while the crate loaded random JAX file sets (abort / stack overflow in the code under test)", replay=rp))
+        return [None]
+    ctx.traces += s.get("cases", 0) if only_run is None else 0
+    files = s["extra"]["files"]
+    idx = s["extra"]["runs"]
+    with ThreadPoolExecutor(max_workers=12) as ex:
+        results = list(ex.map(lambda f: tlc_trace(ctx, "trace/TraceJax.cfg", "trace/TraceJax.tla", f["file"], timeout=1800), files))
+    rejected = []
+    for f, (ok, line_no) in zip(files, results):
+        if ok:
+            ctx.extra["jax_load_events_validated"] = ctx.extra.get("jax_load_events_validated", 0) + f["events"]
+            continue
+        mine = [r for r in idx if r["chunk"] == f["chunk"] and r["last_line"] >= r["first_line"]]
+        run = next((r for r in mine if r["first_line"] <= (line_no or 0) <= r["last_line"]), mine[-1])
+        lines = open(f["file"]).read().splitlines()
+        ev = json.loads(lines[line_no - 1]) if line_no and line_no <= len(lines) else {}
+        os.makedirs(REPLAYS, exist_ok=True)
+        rp = os.path.join(REPLAYS, f"C09-jax-seed{ctx.seed}-run{run['run']}.json")
+        what = (f"trace validation: random file set of run {run['run']}: {ev.get('loader', '?')} loader " +
+                (f"failed on a file set inside the documented envelope: {str(ev.get('error'))[:200]}" if ev.get("e") != "Load"
+                 else "loaded facts that are not the ones the files describe (Describes of spec/HpoJax.tla); loaded " + json.dumps(ev.get("loaded"))[:500]))
+        json.dump({"cmd": "trace-jax", "property": "C09", "seed": ctx.seed, "runs": runs, "big_every": big_every, "run": run["run"], "line": line_no,
+                   "event": ev, "diffs": [what]}, open(rp, "w"), indent=1)
+        ctx.violations.append(dict(property="C09", what=what, replay=rp))
+        rejected.append(run["run"])
+    return rejected
+
+
 def algo_drift(ctx, runs):
     """advisory: step events from the hooks must be steps of HpoAlgo's machines; mismatch = algorithm drift, never a violation"""
     tf = os.path.join(ctx.scratch, "algo.ndjson")
@@ -695,7 +736,9 @@ def check_C09(ctx):
                 "(structure x obsolete/replaced_by, records x data-version incl. none, 9 name shapes incl. ': ', non-ASCII, >255 bytes) x 4 noise presets (NOT rows, DECIPHER rows, "
                 "# comments, column header, [Typedef] stanzas, extra tags, extra columns, repeated rows, the 3 accepted gene-file headers, alternative tag order) x 3 record orders, "
                 "checks that its writer and declarative reader agree, and emits them; the harness renders them verbatim and compares from_standard and from_standard_transitive "
-                "with the projection the spec derives, and with the Builder and binary paths on the same facts; non-trivial = a noisy preset")
+                "with the projection the spec derives, and with the Builder and binary paths on the same facts; the 768 combinations of the kinds of noise and the cross product of the catalogues are covered as well.  "
+                "impl->spec: random file sets outside the writer's image (free order of tag lines, Typedef stanzas anywhere, comments in the middle of phenotype.hpoa, NOT rows about annotated diseases, random DAGs of 3-40 / 120-300 terms) "
+                "are loaded by the crate and TLC accepts the recorded load only if Describes(files) equals the loaded facts (TraceJax); non-trivial = a noisy preset or a random file set")
     outs = [tlc(ctx, "mc/MC_Jax.cfg", "mc/MC_Jax.tla", workers=14)["out"],
             # every combination of the eight kinds of noise and the three gene-file headers (768 presets) on six representative ontologies
             tlc(ctx, "mc/MC_JaxLattice.cfg", "mc/MC_Jax.tla", workers=12)["out"],
@@ -703,6 +746,9 @@ def check_C09(ctx):
             tlc(ctx, "mc/MC_JaxCross.cfg" if ctx.quick else "mc/MC_JaxCrossT.cfg", "mc/MC_Jax.tla", workers=12, timeout=3000)["out"]]
     s = hv(ctx, "replay-jax", prop="C09", **{"in": concat(ctx, outs, "c09-lines.txt")})
     ctx.traces += s.get("cases", 0)
+    # impl -> spec: random file sets the writer cannot produce (free tag order, Typedef anywhere, comments in the middle, NOT rows about
+    # annotated diseases, 3-40 terms, every 10th (thorough) 120-300 terms); Describes decides what they describe
+    trace_jax(ctx, 144 if ctx.quick else 2400, big_every=(0 if ctx.quick else 10))
     ctx.assumptions += ["generator stays inside the documented envelope: one header line in gene files, is_a lines carry '! comment', one name per record id, annotated terms exist, 4-digit years"]
     return finish(ctx)
 
@@ -1035,6 +1081,21 @@ def replay(path):
             if rej:
                 log(f"reproduced: the specification rejects the recorded Linkage run")
                 log(f"VIOLATION property=C17 replay={path}")
+                return 1
+            log("not reproduced on the current tree")
+            return 0
+        except ToolError as e:
+            log(f"TOOL-ERROR: {e}")
+            return 2
+        finally:
+            ctx.cleanup()
+    if v.get("cmd") == "trace-jax":
+        ctx = Ctx("C09", "quick", int(v.get("seed", 1)))
+        try:
+            rej = trace_jax(ctx, int(v["runs"]), int(v.get("big_every", 0)), only_run=v.get("run"))
+            if rej:
+                log("reproduced: the specification rejects the recorded load of the random file set")
+                log(f"VIOLATION property=C09 replay={path}")
                 return 1
             log("not reproduced on the current tree")
             return 0
